@@ -487,6 +487,23 @@ def install(world):
         return [tuple(t) for t in itertools.combinations(BI.iterate(W, ex, a[0]), a[1])]
     T["itertools.combinations"] = Builtin("combinations", it_combinations)
 
+    # ---- decorators of pysmt/decorators.py with a modelled meaning -------------------
+    def dec_infix(ex, a, kw):
+        env = ex.ghost.get("env")
+        if env is not None and not ex.decide(ex.truth(env.fields.get("enable_infix_notation", True))):
+            raise PyRaise(ExcVal("PysmtModeError", ("Infix notation is not enabled",)))
+        return NotImplemented
+    T["decorator:assert_infix_enabled"] = Builtin("assert_infix_enabled", dec_infix)
+
+    def dec_clear_pending_pop(ex, a, kw):
+        # real body of decorators.clear_pending_pop_wrap
+        selfv = a[1]
+        if ex.decide(ex.truth(W.getattr(ex, selfv, "pending_pop"))):
+            W.setattr(ex, selfv, "pending_pop", False)
+            ex.call(W.getattr(ex, selfv, "pop"), [], {})
+        return NotImplemented
+    T["decorator:clear_pending_pop"] = Builtin("clear_pending_pop", dec_clear_pending_pop)
+
     # ---- methods of builtin types -------------------------------------------
     def meth(tname, name, fn):
         T["method:%s.%s" % (tname, name)] = Builtin("%s.%s" % (tname, name), fn)
